@@ -3,6 +3,7 @@ import json
 import vlib
 from vlib import Check
 from checks import mpcommon as mp
+from checks import jsoncommon as jc
 
 
 def run_check(tier):
@@ -26,6 +27,10 @@ def run_check(tier):
     chk.add_cases(len(pairs), distinct_keys=((json.dumps(s["doc"]), json.dumps(s["root"]), json.dumps(s["pol"])) for s in scen8 + scen256),
                   validated=len(pairs))
     chk.sample({"scenario": {k: scen8[len(scen8) // 3][k] for k in ("doc", "root", "pol")}, "expected": scen8[len(scen8) // 3]["exp"]})
+    del pairs, scen8, scen256
+    # JSON archive: the same request scripts against documents rendered by the JSON spec (several styles / encodings)
+    jc.load_leg(chk, tier, "fields", {"MaxOps": 2 if quick else 3, "Widths": "{0, 3}" if quick else "{0, 1, 3, 4, 6}"},
+                ["SentinelIntact", "UnchangedOnFailure", "Export"], label="JSON scripted load")
     return chk.finish()
 
 
